@@ -55,8 +55,23 @@ async fn relay(mut from: tokio::net::tcp::OwnedReadHalf, mut to: tokio::net::tcp
     let _ = to.shutdown().await;
 }
 
-/// `d`, `l`: identity keys of dialer and listener; `dialed`: the key whose peer id the dialer expects.
-pub(crate) fn negotiate(d: usize, l: usize, dialed: Option<usize>, flip: Option<usize>) -> String {
+/// The peer id of identity key `i` in the representation `hashed` asks for: the identity (inlined) form every
+/// `to_peer_id()` yields, or the SHA2-256 form `from_multihash(Sha2_256.digest(protobuf(key)))` ("Qm...") that
+/// `PeerId::from_multihash` / `try_from_multiaddr` / `from_bytes` accept as well.
+pub(crate) fn expected_id(i: usize, hashed: bool) -> crate::PeerId {
+    let public = key(i).public();
+    if hashed {
+        use multihash_codetable::{Code, MultihashDigest};
+        crate::PeerId::from_multihash(Code::Sha2_256.digest(&crate::crypto::PublicKey::Ed25519(public).to_protobuf_encoding()))
+            .expect("sha2-256 multihash is a peer id")
+    } else {
+        public.to_peer_id()
+    }
+}
+
+/// `d`, `l`: identity keys of dialer and listener; `dialed`: the key whose peer id the dialer expects (and whether the
+/// expectation is given in the SHA2-256 form).
+pub(crate) fn negotiate(d: usize, l: usize, dialed: Option<(usize, bool)>, flip: Option<usize>) -> String {
     let rt = tokio::runtime::Builder::new_current_thread().enable_all().build().expect("runtime");
     rt.block_on(async move {
         let listener = TcpListener::bind("127.0.0.1:0").await.expect("bind");
@@ -81,7 +96,7 @@ pub(crate) fn negotiate(d: usize, l: usize, dialed: Option<usize>, flip: Option<
             }
         };
         let t = Duration::from_secs(10);
-        let dialed_peer = dialed.map(|i| key(i).public().to_peer_id());
+        let dialed_peer = dialed.map(|(i, hashed)| expected_id(i, hashed));
         let (a, b) = tokio::join!(
             TcpConnection::negotiate_connection(
                 ds,
@@ -109,10 +124,7 @@ pub(crate) fn negotiate(d: usize, l: usize, dialed: Option<usize>, flip: Option<
             )
         );
         let show = |r: &Result<super::NegotiatedConnection, NegotiationError>| match r {
-            Ok(c) => match (0..16).find(|i| key(*i).public().to_peer_id() == c.peer) {
-                Some(i) => format!("ok:k{i}"),
-                None => "ok:?".to_string(),
-            },
+            Ok(c) => format!("ok:{}", key_name(&c.peer)),
             Err(e) => format!("err:{}", class(e)),
         };
         format!("D={} L={}", show(&a), show(&b))
@@ -198,13 +210,17 @@ fn dial_class(error: &DialError) -> &'static str {
 fn key_name(peer: &PeerId) -> String {
     match (0..16).find(|i| key(*i).public().to_peer_id() == *peer) {
         Some(i) => format!("k{i}"),
-        None => "?".to_string(),
+        // a connection reported under the SHA2-256 form of a test key's id
+        None => match (0..16).find(|i| expected_id(*i, true) == *peer) {
+            Some(i) => format!("h{i}"),
+            None => "?".to_string(),
+        },
     }
 }
 
 /// `via`: `open` | `dial`; `host`: `ip4` | `ip6` | `dns` | `dns4` | `dns6`; `d`, `l`: identity keys of
 /// dialer and listener; `expected`: the key whose peer id is the `/p2p` suffix of the dialed address.
-pub(crate) fn transport_dial(via: &str, host: &str, d: usize, l: usize, expected: Option<usize>) -> String {
+pub(crate) fn transport_dial(via: &str, host: &str, d: usize, l: usize, expected: Option<(usize, bool)>) -> String {
     let rt = tokio::runtime::Builder::new_current_thread().enable_all().build().expect("runtime");
     rt.block_on(async move {
         let Some(resolver) = resolver() else { return "D=unresolved".to_string() };
@@ -250,8 +266,8 @@ pub(crate) fn transport_dial(via: &str, host: &str, d: usize, l: usize, expected
             _ => Protocol::Dns6(name()),
         };
         let mut address = Multiaddr::empty().with(first).with(Protocol::Tcp(port));
-        if let Some(e) = expected {
-            address = address.with(Protocol::P2p(key(e).public().to_peer_id().into()));
+        if let Some((e, hashed)) = expected {
+            address = address.with(Protocol::P2p(expected_id(e, hashed).into()));
         }
 
         let id = ConnectionId::from(7usize);
@@ -610,6 +626,137 @@ pub(crate) fn poll_script(items: &[&str], inbound: usize, accept: bool, neg: boo
             "ev=[{}] in={seen_inbound}:{pending_ok} dials=[{dials}] handles=[{handles}] opened=[{opened}] popen=[{popen}] rej={verdicts} lost={lost}{}",
             events.join(","),
             if closed { " closed" } else { "" },
+        )
+    })
+}
+
+// ---------------------------------------------------------------------------------------------
+// `dl`: the outcome of `TcpTransport::open` when time passes — the overall dial deadline.
+//
+// A real `TcpTransport` with `connection_open_timeout = t` ms and `max_parallel_dials = 1` is handed
+// `open(id, [addresses])`, one loopback address per letter of `a=`:
+//   `s`  a listener that completes the TCP handshake and never speaks (the attempt stalls until its own timeout `t`)
+//   `r`  a port nobody listens on (connection refused at once)
+//   `k`  a real `TcpTransport` (identity key 1) that accepts
+// and its event stream is polled for up to `2t + 1500` ms. `cancel=<ms>`: the manager's `Transport::cancel(id)` after
+// that many ms. Observation: `D=openfail` (`OpenFailure`), `D=opened` (`ConnectionOpened`), `D=silent` (no event at all),
+// then `handles=<n>` (entries left in `cancel_futures`) and `lost=<n>` (futures left in `pending_raw_connections`).
+// Which attempt the deadline interrupts is a matter of timing and not observed.
+
+pub(crate) fn open_deadline(kinds: &[char], timeout_ms: u64, cancel_after: Option<u64>) -> String {
+    let rt = tokio::runtime::Builder::new_current_thread().enable_all().build().expect("runtime");
+    let kinds: Vec<char> = kinds.to_vec();
+    rt.block_on(async move {
+        let Some(resolver) = resolver() else { return "D=env:resolver".to_string() };
+        let mut silent: Vec<std::net::TcpListener> = Vec::new();
+        let mut accepting = Vec::new();
+        let mut keep: Vec<Box<dyn std::any::Any>> = Vec::new();
+        let mut addresses = Vec::new();
+        for kind in &kinds {
+            let port = match kind {
+                's' => match std::net::TcpListener::bind("127.0.0.1:0") {
+                    Ok(listener) => {
+                        let port = listener.local_addr().map(|a| a.port());
+                        silent.push(listener);
+                        port
+                    }
+                    Err(error) => Err(error),
+                },
+                'r' => std::net::TcpListener::bind("127.0.0.1:0").and_then(|s| s.local_addr()).map(|a| a.port()),
+                _ => {
+                    let listen = vec!["/ip4/127.0.0.1/tcp/0".parse().expect("addr")];
+                    let Some((mut listener, bound, keep_l)) = make_transport(1, listen, resolver.clone()) else {
+                        return "D=env:unavailable".to_string();
+                    };
+                    keep.push(keep_l);
+                    let port = bound.first().and_then(|a| {
+                        a.iter().find_map(|c| match c {
+                            Protocol::Tcp(p) => Some(p),
+                            _ => None,
+                        })
+                    });
+                    accepting.push(tokio::spawn(async move {
+                        while let Some(event) = listener.next().await {
+                            if let TransportEvent::PendingInboundConnection { connection_id } = event {
+                                let _ = listener.accept_pending(connection_id);
+                            }
+                        }
+                    }));
+                    port.ok_or_else(|| std::io::Error::other("no port"))
+                }
+            };
+            let Ok(port) = port else { return "D=env:unavailable".to_string() };
+            addresses.push(
+                Multiaddr::empty()
+                    .with(Protocol::Ip4(Ipv4Addr::LOCALHOST))
+                    .with(Protocol::Tcp(port))
+                    .with(Protocol::P2p(key(1).public().to_peer_id().into())),
+            );
+        }
+
+        let (event_tx, event_rx) = tokio::sync::mpsc::channel(64);
+        keep.push(Box::new(event_rx));
+        let handle = TransportHandle {
+            executor: Arc::new(crate::executor::DefaultExecutor {}),
+            next_substream_id: Default::default(),
+            next_connection_id: Default::default(),
+            keypair: key(0),
+            tx: event_tx,
+            bandwidth_sink: crate::BandwidthSink::new(),
+            protocols: HashMap::new(),
+        };
+        let config = TcpConfig {
+            listen_addresses: Vec::new(),
+            connection_open_timeout: Duration::from_millis(timeout_ms),
+            max_parallel_dials: 1,
+            ..Default::default()
+        };
+        let Ok((mut dialer, _)) = TcpTransport::new(handle, config, resolver) else {
+            return "D=env:unavailable".to_string();
+        };
+        let id = ConnectionId::from(7usize);
+        if dialer.open(id, addresses).is_err() {
+            return "D=refused".to_string();
+        }
+        let started = std::time::Instant::now();
+        let budget = Duration::from_millis(2 * timeout_ms + 1500);
+        let mut canceled = false;
+        let result = loop {
+            let elapsed = started.elapsed();
+            if elapsed >= budget {
+                break "silent";
+            }
+            let mut slice = budget - elapsed;
+            if let (Some(ms), false) = (cancel_after, canceled) {
+                let at = Duration::from_millis(ms);
+                if elapsed >= at {
+                    dialer.cancel(id);
+                    canceled = true;
+                    continue;
+                }
+                slice = slice.min(at - elapsed);
+            } else if canceled && dialer.pending_raw_connections.is_empty() {
+                // the cancelled future has been reaped: nothing can come any more
+                break "silent";
+            } else if canceled {
+                slice = slice.min(Duration::from_millis(20));
+            }
+            match tokio::time::timeout(slice, dialer.next()).await {
+                Ok(Some(TransportEvent::OpenFailure { connection_id, .. })) if connection_id == id => break "openfail",
+                Ok(Some(TransportEvent::ConnectionOpened { connection_id, .. })) if connection_id == id => break "opened",
+                Ok(Some(_)) => break "other",
+                Ok(None) => break "closed",
+                Err(_) => {}
+            }
+        };
+        for task in accepting {
+            task.abort();
+        }
+        drop(silent);
+        format!(
+            "D={result} handles={} lost={}",
+            dialer.cancel_futures.len(),
+            dialer.pending_raw_connections.len()
         )
     })
 }
